@@ -4,4 +4,5 @@ Require Import ExtrOcamlBasic.
 From Verif Require Import Lib.Base Lib.Utf8 Model.Csv.
 Extraction "model.ml"
   mkCfg read_csv write_record join_fields rfc_records rrec_text
-  valid_csv_separator validate_csv_input.
+  valid_csv_separator validate_csv_input
+  arun msr read_file.
